@@ -44,7 +44,7 @@ impl Scenario for BusCrash {
     }
     fn info(&self) -> Info {
         Info {
-            rule: "one case = one header configuration (run index walks all 7 supported types x 12 ROM-size codes x 6 RAM-size codes = 504 round-robin) built by read_header + Core::from_rom_file, a seeded history of 0..8 bank-register writes, then 1..12 accesses (byte/word read/write at boundary-biased addresses incl. word accesses at 0xFFFF/0x7FFF/0xBFFF, fetch view, and a PUSH/POP/LD (a16),SP/LD A,(a16) program run by both engines with SP at 0x0000/0x0001/0xFFFF...). A case fails if the worker process dies or any access panics. distinct_nontrivial = distinct (type, ROM code, RAM code, bank-state class, region, access kind)",
+            rule: "one case = one header configuration (run index walks all 7 supported types x 12 ROM-size codes x 6 RAM-size codes = 504 round-robin) built by read_header + Core::from_rom_file, a seeded history of 0..8 bank-register writes, (in the first two passes over the configurations: a sweep of all 65536 addresses with byte reads, word reads and - outside the register window - byte and word writes), then 1..12 accesses (byte/word read/write at boundary-biased addresses incl. word accesses at 0xFFFF/0x7FFF/0xBFFF, fetch view, and a PUSH/POP/LD (a16),SP/LD A,(a16) program run by both engines with SP at 0x0000/0x0001/0xFFFF...). A case fails if the worker process dies or any access panics. distinct_nontrivial = distinct (type, ROM code, RAM code, bank-state class, region, access kind)",
             components_real: &["mem::memory_read_byte/_write_byte/_read_word/_write_word/memory_push_word, get_executable_memory_slice", "cart::* bank state, Header sizing, MemoryAreas::with_rom_file (buffers sized from the header)", "translated code and interpreter for the stack/word-access program"],
             components_stub: &["devices idle"],
             assumptions: &["built with overflow-checks and debug-assertions on", "the cartridge file is as large as the header declares (shorter files are C19's subject)", "instruction fetch from non-executable regions (VRAM, cartridge RAM, OAM, I/O) is not a bus read/write and is not exercised"],
@@ -63,6 +63,10 @@ impl Scenario for BusCrash {
             let addr = rng.pick(&[0x0000u16, 0x2000, 0x3fff, 0x4000, 0x5fff, 0x6000, 0x7fff, 0x2100]);
             let v = if rng.chance(3, 4) { rng.pick(&VALUES) } else { rng.byte() };
             case.push("w", &[addr as i64, v as i64]);
+        }
+        // the first two passes over the 504 configurations also sweep the whole address space after the register history
+        if index < 1008 {
+            case.push("sweep", &[]);
         }
         let na = rng.range(1, 12);
         for _ in 0..na {
@@ -108,6 +112,7 @@ impl Scenario for BusCrash {
                 "ww" => 4,
                 "fv" => 5,
                 "blk" => 6,
+                "sweep" => 7,
                 _ => continue,
             };
             let r = std::panic::catch_unwind(std::panic::AssertUnwindSafe(|| match op.k {
@@ -122,6 +127,26 @@ impl Scenario for BusCrash {
                 "ww" => m.write_word(addr, op.arg(1) as u16),
                 "fv" => {
                     let _ = m.fetch_view((addr & 0x7fff) as usize, 4);
+                }
+                "sweep" => {
+                    // every address: byte read, word read, fetch view (ROM), then byte and word writes everywhere outside the
+                    // cartridge-register window (writes there would change the state being swept)
+                    for a in 0..=0xffffu16 {
+                        let _ = m.read(a);
+                        let _ = m.read_word(a);
+                        if a < 0x8000 && a & 0xff == 0 {
+                            let _ = m.fetch_view(a as usize, 4);
+                        }
+                    }
+                    for a in 0x8000..=0xffffu16 {
+                        if a == 0xff46 || a == 0xff02 {
+                            continue;
+                        }
+                        m.write(a, a as u8);
+                        if a != 0xff45 && a != 0xff01 {
+                            m.write_word(a, 0x5aa5);
+                        }
+                    }
                 }
                 "blk" => {
                     let a16 = op.arg(1) as u16;
@@ -147,6 +172,7 @@ impl Scenario for BusCrash {
             ctx.cov.hit(match op.k {
                 "rw" | "ww" if addr == 0xffff => "probe.word_access_at_ffff",
                 "blk" => "probe.stack_programs",
+                "sweep" => "probe.full_address_space_sweeps",
                 _ => "accesses",
             });
         }
